@@ -56,15 +56,21 @@ IeGarbage(bytes) ==
                  t2 == IF "ignore" \in DOMAIN Fault /\ Fault.ignore THEN EnumAt(t1, SubSeq(p, 1, Len(p) - 1) \o <<2>>, 1) ELSE t1
              IN PerEncode(t2)
 Garbage(bytes) == IF "ie" \in DOMAIN Fault /\ Fault.ie > 0 THEN IeGarbage(bytes) ELSE IF "cut" \in DOMAIN Fault /\ Fault.cut > 0 /\ Len(bytes) > Fault.cut THEN SubSeq(bytes, 1, Len(bytes) - Fault.cut) ELSE Fault.bytes
+\* Optionally (Fault.ins, octets of a well-formed interface management message such as OVERLOAD STOP) that message is sent in front of the
+\* fault: the emulator, which takes its answers in the order they come, reads it in place of answer `at` and meets the fault one read later
+Ins == "ins" \in DOMAIN Fault /\ Len(Fault.ins) > 0
+Px(i) == IF Ins /\ i >= Fault.at THEN i + 1 ELSE i            \* the pump's index of the specification's downlink message i
+SendRaw(pi, b) == LET f == WorkDir \o "/dl" \o ToString(pi) \o ".json"
+                  IN JsonSerialize(f, [bytes |-> b]) /\ IOExec(<<PumpBin, "ctl", "-sock", Sock, "send", ToString(pi), f>>).exitValue = 0
 SendOne(i, bytes) ==
    IF ~Online THEN TRUE
-   ELSE IF Fault.kind = "close" /\ i >= Fault.at
-        THEN IOExec(<<PumpBin, "ctl", "-sock", Sock, "close", ToString(i)>>).exitValue = 0
-        ELSE LET f == WorkDir \o "/dl" \o ToString(i) \o ".json"
-                 b == IF Fault.kind = "garbage" /\ i = Fault.at THEN Garbage(bytes)
-                      ELSE IF "pre" \in DOMAIN Fault /\ i = Fault.pre THEN Fault.prebytes   \* an ignored message is undecodable too (see above)
-                      ELSE bytes
-             IN JsonSerialize(f, [bytes |-> b]) /\ IOExec(<<PumpBin, "ctl", "-sock", Sock, "send", ToString(i), f>>).exitValue = 0
+   ELSE (IF Ins /\ i = Fault.at THEN SendRaw(i, Fault.ins) ELSE TRUE)
+        /\ IF Fault.kind = "close" /\ i >= Fault.at
+           THEN IOExec(<<PumpBin, "ctl", "-sock", Sock, "close", ToString(Px(i))>>).exitValue = 0
+           ELSE LET b == IF Fault.kind = "garbage" /\ i = Fault.at THEN Garbage(bytes)
+                         ELSE IF "pre" \in DOMAIN Fault /\ i = Fault.pre THEN Fault.prebytes   \* an ignored message is undecodable too (see above)
+                         ELSE bytes
+                IN SendRaw(Px(i), b)
 RECURSIVE SendAll(_, _)
 SendAll(i, outs) == IF Len(outs) = 0 THEN TRUE ELSE SendOne(i, Head(outs)) /\ SendAll(i + 1, Tail(outs))
 
@@ -151,6 +157,7 @@ FinalNormal ==
 FinalFault ==
    (IF Fault.kind = "garbage" /\ ~("cut" \in DOMAIN Fault /\ Fault.cut > 0) /\ ~("ie" \in DOMAIN Fault /\ Fault.ie > 0) /\ NgapDecode(Fault.bytes).ok THEN {"HARNESS: the garbage is a decodable NGAP PDU for the specification"} ELSE {})
    \cup (IF j > Fault.at THEN {} ELSE {"HARNESS: the run ended before the fault point was reached"})
+   \cup (IF Ins /\ ~NgapDecode(Fault.ins).ok THEN {"HARNESS: the message sent in front of the fault is not a decodable NGAP PDU"} ELSE {})
    \cup (IF "pre" \in DOMAIN Fault /\ (Fault.pre >= Fault.at \/ NgapDecode(Fault.prebytes).ok) THEN {"HARNESS: the earlier undecodable message is misplaced or decodable"} ELSE {})
    \cup (IF result.kind = "exit" THEN {} ELSE {"the emulator hangs after the fault (no exit within the deadline)"})
    \cup (IF result.kind = "exit" /\ result.code = 0 THEN {"exit status 0 after the fault"} ELSE {})
